@@ -72,16 +72,21 @@ Print Assumptions C12_segment_mode_encode.
 (* After UpdateSidx (when it adds or refills an index) and segment-mode encoding: for every i, the
    output splits into `before` ++ segments i.. ++ mfra where `before` has exactly
    anchor + (sum of the first i referenced sizes) bytes — reference i starts at the first byte of
-   segment i and (i = number of segments) the references end where the media ends; durations are
-   the summed sample durations of the reference track (mod 2^32, the Go accumulator is uint32);
-   reference_ID / timescale are the reference track's.  Guard: every segment is smaller than 2^31
-   bytes (referenced_size is a 31 bit field).  Sizes are Size() values: that a box encodes to
-   Size() bytes is C02's statement. *)
+   segment i and (i = number of segments) the references end where the media ends; every reference
+   has type 0, its referenced_size IS the segment's size and fits the 31-bit field (what a reader of
+   the written word `type<<31 | size` gets back is (0, size of the segment)), its duration IS the
+   summed sample durations of the reference track over all trafs of all fragments of the segment,
+   in whatever order the trafs come and whether or not a fragment holds the reference track, and
+   fits 32 bits; reference_ID / timescale are the reference track's.
+   No bound on segment sizes or durations any more (repo commit 85561e1: UpdateSidx returns an error
+   instead of wrapping; the guard `< 2^64` only says that Size() and the uint64 duration accumulator,
+   whose wrap the model writes out, do not wrap: a file of 16 EiB).  Sizes are Size() values: that a
+   box encodes to Size() bytes is C02's statement. *)
 Theorem C12_sidx_tiles : forall (f : file) (add nz : bool) (newtag : N) (f' : file) (out : list topbox),
   update_sidx f add nz newtag = Ok f' ->
   (add = true \/ f_sidxs f <> []) ->
   encode_segment_mode f' = Ok out ->
-  Forall (fun s => seg_size s < 2147483648) (f_segs f) ->
+  Forall (fun s => seg_size s < M64) (f_segs f) ->
   exists sx rest moov rt,
     f_sidxs f' = sx :: rest /\ f_moov f = Some moov /\ find_reference_trak (b_traks moov) = Ok rt /\
     let refs := b_refs (sx_box sx) in
@@ -91,11 +96,43 @@ Theorem C12_sidx_tiles : forall (f : file) (add nz : bool) (newtag : N) (f' : fi
        let before := init_boxes f' ++ map sx_box (f_sidxs f') ++ concat (map seg_boxes (firstn i segs)) in
        out = before ++ concat (map seg_boxes (skipn i segs)) ++ opt_list (f_mfra f') /\
        anchor_in_output f' sx + sumN (firstn i (map r_size refs)) = sizes_of before) /\
-    map r_dur refs = map (fun s => seg_ref_dur (k_id rt) s mod M32) segs /\
-    Forall (fun r => r_type r = 0) refs /\
+    Forall2 (fun r s => r_size r = seg_size s /\ r_size r < M31 /\ r_type r = 0 /\
+                        dec_ref_word (enc_ref_word r) = (0, seg_size s) /\
+                        r_dur r = seg_ref_dur (k_id rt) s mod M64 /\ r_dur r < M32) refs segs /\
     b_refid (sx_box sx) = k_id rt /\ b_timescale (sx_box sx) = k_timescale rt.
 Proof. exact sidx_tiles. Qed.
 Print Assumptions C12_sidx_tiles.
+
+(* The text before 85561e1 (uint32 accumulator, uint32(seg.Size())): a segment of 2^31 + 100 bytes got
+   a reference that reads back as type 1 (a reference to another sidx) of 100 bytes; two samples of
+   3*10^9 ticks (5 minutes each at the 10 MHz Smooth Streaming timescale) a duration of 1705032704
+   instead of 6*10^9; both without an error.  The repaired text returns an error for both files.
+   Replayed on the real code: known_findings/C12.json C12-F6. *)
+Theorem C12_sidx_pinned_refuted :
+  (exists f, assemble (mkOpts false false) p_big = Ok f /\ map seg_size (f_segs f) = [2147483748] /\
+             first_ref (update_sidx_pinned f true false 9) = Some ((1, 100), 10) /\
+             update_sidx f true false 9 = Err) /\
+  (exists f, assemble (mkOpts false false) p_long = Ok f /\ map (seg_ref_dur 1) (f_segs f) = [6000000000] /\
+             first_ref (update_sidx_pinned f true false 9) = Some ((0, 116), 1705032704) /\
+             update_sidx f true false 9 = Err).
+Proof. exact sidx_pinned_refuted. Qed.
+Print Assumptions C12_sidx_pinned_refuted.
+
+(* Which track is "the reference track": the first video track of the moov, else the first audio
+   track, else the first track - by position in the moov, not by track id; None of the three exists
+   only for a moov without trak (Panic in the model: Go indexes Traks[0]). *)
+Theorem C12_reference_track : forall (traks : list trak),
+  match find_reference_trak traks with
+  | Ok rt =>
+      exists before after, traks = before ++ rt :: after /\
+        ((k_handler rt = 0 /\ Forall (fun k => k_handler k <> 0) before) \/
+         (k_handler rt = 1 /\ Forall (fun k => k_handler k <> 0) traks /\ Forall (fun k => k_handler k <> 1) before) \/
+         (before = [] /\ Forall (fun k => k_handler k <> 0 /\ k_handler k <> 1) traks))
+  | Panic => traks = []
+  | _ => False
+  end.
+Proof. exact reference_track_spec. Qed.
+Print Assumptions C12_reference_track.
 
 (* ---------------------------------------------------------------- the hypotheses are satisfiable *)
 (* ftyp moov styp moof mdat moof mdat styp moof mdat: two segments of 2 and 1 fragments, track 2 is video *)
